@@ -686,13 +686,9 @@ func (x *Exec) loopHead(fr *Frame, li *loopInfo, entry *State, phiEntry map[*ssa
 	}
 	// 2. havoc
 	head := entry.clone()
-	mods, all := x.loopMods(fr, li)
-	if all {
-		x.havocAll(head, fmt.Sprintf("loop %d of %s calls code with unknown effects", li.ordinal, fname))
-	} else {
-		for _, m := range mods {
-			x.havocTarget(fr, head, m)
-		}
+	baseBefore := head.base
+	x.loopHavoc(fr, li, entry, head)
+	if head.base == baseBefore {
 		na := x.s.declare("alloc", "Int")
 		x.assume("true", "(>= "+na+" "+head.alloc+")")
 		head.alloc = na
